@@ -201,7 +201,8 @@ def run_spec_shard(idx: int, cfgs: list[dict], name: str, timeout: int):
     for lib in (tlc.SPECS / "lib").glob("*.tla"):
         shutil.copy(lib, d / lib.name)
     (d / "TransConsts.tla").write_text(consts_module(cfgs))
-    res = tlc.run_tlc(d, "Transitions", CFG_TEXT, workers=1, timeout=timeout, dump_trace=False, cpus=2, heap="2g")
+    res = tlc.run_tlc(d, "Transitions", CFG_TEXT, workers=1, timeout=timeout, dump_trace=False, cpus=2, heap="2g",
+                      coverage=True)
     return res
 
 
@@ -216,9 +217,12 @@ def run_spec(cfgs: list[dict], name: str, shards: int = 14, timeout: int = 1500)
                               enumerate(parts)))
     recs, failures = [], []
     generated = distinct = 0
+    cover = {}
     for part, res in zip(parts, results):
         generated += res.generated
         distinct += res.distinct
+        for a, (dst, gn) in res.coverage.items():
+            cover[a] = cover.get(a, 0) + gn
         for r in res.printed:
             if "nonstationary" in r:
                 for local in r["nonstationary"]:
@@ -232,7 +236,10 @@ def run_spec(cfgs: list[dict], name: str, shards: int = 14, timeout: int = 1500)
             failures.append((res.violated or res.error_kind, None, res.stdout[-3000:]))
         if res.error_kind == "postcondition" and not any(f[0] == "Stationary" for f in failures):
             failures.append(("Stationary", None))
-    return recs, {"generated": generated, "distinct": distinct}, failures
+    never = sorted(a for a, n_ in cover.items() if n_ == 0)
+    if never and n > 50:
+        raise MachineryError(f"vacuity: labels of Transitions.tla never executed in this configuration family: {never}")
+    return recs, {"generated": generated, "distinct": distinct, "action_coverage": cover}, failures
 
 
 def spec_kernel(recs: list[dict]):
